@@ -44,7 +44,7 @@ func init() {
 		},
 		Run:            c16Run,
 		Replay:         c16Replay,
-		QuickBudget:    55 * time.Second,
+		QuickBudget:    240 * time.Second,
 		ThoroughBudget: 9 * time.Minute,
 	})
 }
